@@ -125,7 +125,7 @@ def run(ctx):
             ctx.inconclusive_(ident, verdict, dt)
     # ---- E1
     B = 8
-    T = 150 if ctx.quick() else 900
+    T = 150 if ctx.quick() else 600
     jobs = []
     for i in range(0, len(trees), B):
         batch = trees[i:i + B]
